@@ -8,8 +8,9 @@
     [firstInCycle r cycle n] the first segment of that cycle; [scheduleCode r codes rep n] the code
     of the first pattern (in order) whose representation filter matches and whose rsq equals
     n - firstInCycle, 0 if none; [scheduled ... base] that code, or the answer [base] the request
-    gets without the parameter.  The first argument of [calcStatusCode]/[segAnswer] selects the
-    code as it is ([false]) or with proposed_fixes/C14-statuscode-cycle-start.diff ([true]).  [goodCode r ss]: 0 < cycle <= 2^31-1 (what the parser accepts) and
+    gets without the parameter.  The first argument of [statusLoop]/[calcStatusCode]/[segAnswer]
+    selects the model of the code as it is now ([true], with the repair 497da16 of the cycle start)
+    or as it was before ([false]).  [goodCode r ss]: 0 < cycle <= 2^31-1 (what the parser accepts) and
     E 0 <= cycle*ts (the first segment is not longer than the cycle).  [codeValid]: the range checks
     of ParseSegStatusCodes. *)
 From Verif Require Import GoSem Timeline TimelineProofs Fault FaultProofs FaultLossProofs.
@@ -33,44 +34,51 @@ Theorem C14_last_nr : forall r loopMS, wf r loopMS -> forall c nowMS,
 Proof. exact findLastSegNr_spec. Qed.
 Print Assumptions C14_last_nr.
 
-(** calcStatusCode computes the schedule (start = 0, startNumber = 0, every pattern good). *)
-Theorem C14_status_spec : forall r loopMS, wf r loopMS -> forall c codes repID n nr,
-  startS c = 0 -> startNr c = 0 -> repDuration r < two64 -> Forall (goodCode r) codes -> 0 <= n ->
-  S r n * 1000 < two63 -> ts r < two32 -> nr = n ->
-  calcStatusCode false r loopMS c codes repID (metaOf r c n nr) = Ok (scheduleCode r codes repID n).
-Proof. exact calcStatusCode_spec. Qed.
+(** calcStatusCode computes the schedule, for every start time, every start number and every
+    cycle the parser accepts (1 .. 2^31-1 s): the code returned for the segment with number
+    startNr + n is the scheduled one.  (Before 497da16 this needed start = 0, startNumber = 0 and a
+    first segment not longer than the cycle; see the last theorems of this section.) *)
+Theorem C14_status_spec : forall r loopMS, wf r loopMS -> forall c repID n codes,
+  0 <= startS c -> repDuration r < two64 -> Forall validCycle codes -> 0 <= n ->
+  (startS c + S r n) * 1000 < two63 -> ts r < two32 ->
+  statusLoop true r loopMS c repID (S r n) (ts r) (startNr c + n) codes = Ok (scheduleCode r codes repID n).
+Proof. exact statusLoop_repaired. Qed.
 Print Assumptions C14_status_spec.
 
-(** A request by $Number$ for segment n (video, or audio: audio uses the reference video segment
-    with the same number): while the segment is available the answer is the scheduled code, or
-    exactly the answer without the parameter; too early / gone are answered as without it. *)
+(** A request by $Number$ for segment n (number startNr + n; video, or audio: audio uses the
+    reference video segment with the same number): while the segment is available the answer is the
+    scheduled code, or exactly the answer without the parameter; too early / gone are answered as
+    without it. *)
 Theorem C14_status_number : forall r loopMS, wf r loopMS -> forall c codes repID audio n now base,
-  startS c = 0 -> startNr c = 0 -> repDuration r < two64 -> Forall (goodCode r) codes -> codes <> [] -> forallb codeValid codes = true ->
-  0 <= n < two32 -> S r n * 1000 < two63 -> ts r < two32 -> 0 <= now ->
-  segAnswer false r loopMS c codes repID audio ByNumber n now base =
-  timedAnswer (checkTime (E r n) (ts r) now (tsbdS c) (ato c)) (scheduled r codes repID n base).
-Proof. exact segAnswer_number. Qed.
+  0 <= startS c -> 0 <= startNr c -> startNr c + n < two32 -> repDuration r < two64 ->
+  codes <> [] -> forallb codeValid codes = true ->
+  0 <= n -> (startS c + S r n) * 1000 < two63 -> ts r < two32 -> startS c * 1000 <= now ->
+  segAnswer true r loopMS c codes repID audio ByNumber (startNr c + n) now base =
+  timedAnswer (checkTime (E r n + startS c * ts r) (ts r) now (tsbdS c) (ato c)) (scheduled r codes repID n base).
+Proof. exact segAnswer_number_repaired. Qed.
 Print Assumptions C14_status_number.
 
 (** The same for a video request by $Time$. *)
 Theorem C14_status_time : forall r loopMS, wf r loopMS -> forall c codes repID n now base,
-  startS c = 0 -> startNr c = 0 -> repDuration r < two64 -> Forall (goodCode r) codes -> codes <> [] -> forallb codeValid codes = true ->
-  0 <= n < two32 -> S r n * 1000 < two63 -> ts r < two32 -> 0 <= now ->
-  segAnswer false r loopMS c codes repID None ByTime (S r n) now base =
-  timedAnswer (checkTime (E r n) (ts r) now (tsbdS c) (ato c)) (scheduled r codes repID n base).
-Proof. exact segAnswer_time. Qed.
+  0 <= startS c -> 0 <= startNr c -> startNr c + n < two32 -> repDuration r < two64 ->
+  codes <> [] -> forallb codeValid codes = true ->
+  0 <= n -> (startS c + S r n) * 1000 < two63 -> ts r < two32 -> startS c * 1000 <= now ->
+  segAnswer true r loopMS c codes repID None ByTime (S r n) now base =
+  timedAnswer (checkTime (E r n + startS c * ts r) (ts r) now (tsbdS c) (ato c)) (scheduled r codes repID n base).
+Proof. exact segAnswer_time_repaired. Qed.
 Print Assumptions C14_status_time.
 
 (** An audio request by $Time$: the audio time t (a multiple of the frame duration) lies in
     reference segment n, i.e. S n <= floor(t * ts / audio timescale) < E n. *)
 Theorem C14_status_audio_time : forall r loopMS, wf r loopMS -> forall c codes repID ats sd t n now base,
-  startS c = 0 -> startNr c = 0 -> repDuration r < two64 -> Forall (goodCode r) codes -> codes <> [] -> forallb codeValid codes = true ->
-  0 <= n < two32 -> S r n * 1000 < two63 -> ts r < two32 -> 0 <= now ->
+  0 <= startS c -> 0 <= startNr c -> startNr c + n < two32 -> repDuration r < two64 ->
+  codes <> [] -> forallb codeValid codes = true ->
+  0 <= n -> (startS c + S r n) * 1000 < two63 -> ts r < two32 -> startS c * 1000 <= now ->
   0 < ats -> 0 < sd -> t mod sd = 0 -> 0 <= t -> t * ts r < two64 ->
   S r n <= t * ts r / ats < E r n ->
-  segAnswer false r loopMS c codes repID (Some (ats, sd)) ByTime t now base =
-  timedAnswer (checkTime (E r n) (ts r) now (tsbdS c) (ato c)) (scheduled r codes repID n base).
-Proof. exact segAnswer_audio_time. Qed.
+  segAnswer true r loopMS c codes repID (Some (ats, sd)) ByTime t now base =
+  timedAnswer (checkTime (E r n + startS c * ts r) (ts r) now (tsbdS c) (ato c)) (scheduled r codes repID n base).
+Proof. exact segAnswer_audio_time_repaired. Qed.
 Print Assumptions C14_status_audio_time.
 
 (** One pattern: the code if and only if the representation matches and n is the rsq-th segment
@@ -82,29 +90,57 @@ Theorem C14_status_iff : forall r ss repID n base,
 Proof. exact scheduled_single. Qed.
 Print Assumptions C14_status_iff.
 
-(** Refuted outside these hypotheses (witnesses reproduced on the code, known_findings c14-...):
-    a start time, a start number (from the second cycle on), a cycle shorter than the first
-    segment.  A cycle above 2^31 s is refused with 400 (its length in ticks used to wrap to 0:
-    division by zero, fixed in the repository). *)
-Theorem C14_start_refuted :
+(** The former counter-examples (start_30, snr_7, a cycle shorter than the first segment) now follow
+    the schedule: scheduled code or normal answer. *)
+Theorem C14_start_snr_short_cycle_fixed :
+  segAnswer true w_rep2 8000 (w_cfg 30 0) [w_code 8 1 404] "V300" None ByNumber 4 40037 200 = AStatus 200 /\
+  segAnswer true w_rep2 8000 (w_cfg 30 0) [w_code 30 1 404] "V300" None ByNumber 31 94037 200 = AStatus 404 /\
+  segAnswer true w_rep2 8000 (w_cfg 0 7) [w_code 8 1 404] "V300" None ByNumber 11 10037 200 = AStatus 200 /\
+  segAnswer true w_rep2 8000 (w_cfg 0 7) [w_code 8 1 404] "V300" None ByNumber 16 20037 200 = AStatus 404 /\
+  segAnswer true w_rep6 12000 (w_cfg 0 0) [w_code 5 0 400] "V300" None ByNumber 1 12037 200 = AStatus 400 /\
+  segAnswer true w_rep8 8000 (w_cfg 0 0) [w_code 3 0 500] "V300" None ByNumber 1 16037 200 = AStatus 500 /\
+  segAnswer true w_rep8 8000 (w_cfg 0 0) [w_code 3 1 599] "V300" None ByNumber 1 16037 200 = AStatus 200.
+Proof. exact repaired_witnesses. Qed.
+Print Assumptions C14_start_snr_short_cycle_fixed.
+
+(** A cycle above 2^31-1 s is refused with 400 (its length in ticks used to wrap to 0: division by
+    zero, fixed by 2c72d16). *)
+Theorem C14_cycle_wrap_rejected :
+  ~ goodCode w_rep2 (w_code 1152921504606846976 38 404) /\
+  segAnswer false w_rep2 8000 (w_cfg 0 0) [w_code 1152921504606846976 38 404] "V300" None ByNumber 38 78037 200
+    = AStatus 400.
+Proof. exact cycle_wrap_rejected. Qed.
+Print Assumptions C14_cycle_wrap_rejected.
+
+(** The code before 497da16 is the model variant [false] (the harness uses it when it finds the
+    repair reverted).  For it the schedule was proved under start = 0, startNumber = 0 and
+    E 0 <= cycle*ts only, and refuted outside: the witnesses that were reproduced on that code. *)
+Theorem C14_unrepaired_status_spec : forall r loopMS, wf r loopMS -> forall c codes repID n nr,
+  startS c = 0 -> startNr c = 0 -> repDuration r < two64 -> Forall (goodCode r) codes -> 0 <= n ->
+  S r n * 1000 < two63 -> ts r < two32 -> nr = n ->
+  calcStatusCode false r loopMS c codes repID (metaOf r c n nr) = Ok (scheduleCode r codes repID n).
+Proof. exact calcStatusCode_spec. Qed.
+Print Assumptions C14_unrepaired_status_spec.
+
+Theorem C14_unrepaired_start_refuted :
   wf w_rep2 8000 /\ goodCode w_rep2 (w_code 8 1 404) /\ goodCode w_rep2 (w_code 30 1 404) /\
   segAnswer false w_rep2 8000 (w_cfg 30 0) [w_code 8 1 404] "V300" None ByNumber 4 40037 200
     = APanic "findSegStartTime: index out of range" /\
   scheduleCode w_rep2 [w_code 30 1 404] "V300" 31 = 404 /\
   segAnswer false w_rep2 8000 (w_cfg 30 0) [w_code 30 1 404] "V300" None ByNumber 31 94037 200 = AStatus 200.
 Proof. exact start_refuted. Qed.
-Print Assumptions C14_start_refuted.
+Print Assumptions C14_unrepaired_start_refuted.
 
-Theorem C14_snr_refuted :
+Theorem C14_unrepaired_snr_refuted :
   wf w_rep2 8000 /\ goodCode w_rep2 (w_code 8 1 404) /\
   segAnswer false w_rep2 8000 (w_cfg 0 7) [w_code 8 1 404] "V300" None ByNumber 11 10037 200
     = APanic "findSegStartTime: index out of range" /\
   scheduleCode w_rep2 [w_code 8 1 404] "V300" 9 = 404 /\
   segAnswer false w_rep2 8000 (w_cfg 0 7) [w_code 8 1 404] "V300" None ByNumber 16 20037 200 = AStatus 200.
 Proof. exact snr_refuted. Qed.
-Print Assumptions C14_snr_refuted.
+Print Assumptions C14_unrepaired_snr_refuted.
 
-Theorem C14_short_cycle_refuted :
+Theorem C14_unrepaired_short_cycle_refuted :
   wf w_rep6 12000 /\ wf w_rep8 8000 /\
   ~ goodCode w_rep6 (w_code 5 0 400) /\ ~ goodCode w_rep8 (w_code 3 0 500) /\
   segAnswer false w_rep6 12000 (w_cfg 0 0) [w_code 5 0 400] "V300" None ByNumber 1 12037 200
@@ -114,46 +150,7 @@ Theorem C14_short_cycle_refuted :
   scheduleCode w_rep8 [w_code 3 1 599] "V300" 1 = 0 /\
   segAnswer false w_rep8 8000 (w_cfg 0 0) [w_code 3 1 599] "V300" None ByNumber 1 16037 200 = AStatus 599.
 Proof. exact short_cycle_refuted. Qed.
-Print Assumptions C14_short_cycle_refuted.
-
-Theorem C14_cycle_wrap_rejected :
-  ~ goodCode w_rep2 (w_code 1152921504606846976 38 404) /\
-  segAnswer false w_rep2 8000 (w_cfg 0 0) [w_code 1152921504606846976 38 404] "V300" None ByNumber 38 78037 200
-    = AStatus 400.
-Proof. exact cycle_wrap_rejected. Qed.
-Print Assumptions C14_cycle_wrap_rejected.
-
-(** With the proposed repair of calcStatusCode (cycle start moved to wall-clock time, empty
-    timeline = no segment ended, start number added) the schedule holds for every start time,
-    every start number and every cycle the parser accepts - no hypothesis on start_, snr_ or the
-    length of the first segment is left. *)
-Theorem C14_status_repaired : forall r loopMS, wf r loopMS -> forall c repID n codes,
-  0 <= startS c -> repDuration r < two64 -> Forall validCycle codes -> 0 <= n ->
-  (startS c + S r n) * 1000 < two63 -> ts r < two32 ->
-  statusLoop true r loopMS c repID (S r n) (ts r) (startNr c + n) codes = Ok (scheduleCode r codes repID n).
-Proof. exact statusLoop_repaired. Qed.
-Print Assumptions C14_status_repaired.
-
-Theorem C14_status_number_repaired : forall r loopMS, wf r loopMS -> forall c codes repID audio n now base,
-  0 <= startS c -> 0 <= startNr c -> startNr c + n < two32 -> repDuration r < two64 ->
-  codes <> [] -> forallb codeValid codes = true ->
-  0 <= n -> (startS c + S r n) * 1000 < two63 -> ts r < two32 -> startS c * 1000 <= now ->
-  segAnswer true r loopMS c codes repID audio ByNumber (startNr c + n) now base =
-  timedAnswer (checkTime (E r n + startS c * ts r) (ts r) now (tsbdS c) (ato c)) (scheduled r codes repID n base).
-Proof. exact segAnswer_number_repaired. Qed.
-Print Assumptions C14_status_number_repaired.
-
-(** the witnesses above, evaluated with the repair: scheduled code or normal answer as the schedule says *)
-Theorem C14_repaired_witnesses :
-  segAnswer true w_rep2 8000 (w_cfg 30 0) [w_code 8 1 404] "V300" None ByNumber 4 40037 200 = AStatus 200 /\
-  segAnswer true w_rep2 8000 (w_cfg 30 0) [w_code 30 1 404] "V300" None ByNumber 31 94037 200 = AStatus 404 /\
-  segAnswer true w_rep2 8000 (w_cfg 0 7) [w_code 8 1 404] "V300" None ByNumber 11 10037 200 = AStatus 200 /\
-  segAnswer true w_rep2 8000 (w_cfg 0 7) [w_code 8 1 404] "V300" None ByNumber 16 20037 200 = AStatus 404 /\
-  segAnswer true w_rep6 12000 (w_cfg 0 0) [w_code 5 0 400] "V300" None ByNumber 1 12037 200 = AStatus 400 /\
-  segAnswer true w_rep8 8000 (w_cfg 0 0) [w_code 3 0 500] "V300" None ByNumber 1 16037 200 = AStatus 500 /\
-  segAnswer true w_rep8 8000 (w_cfg 0 0) [w_code 3 1 599] "V300" None ByNumber 1 16037 200 = AStatus 200.
-Proof. exact repaired_witnesses. Qed.
-Print Assumptions C14_repaired_witnesses.
+Print Assumptions C14_unrepaired_short_cycle_refuted.
 
 (** ** traffic_ *)
 
@@ -244,7 +241,7 @@ Print Assumptions C14_loss_overflow_refuted.
 Example C14_example :
   wf w_rep2 8000 /\ goodCode w_rep2 (w_code 5 1 404) /\
   map (firstInCycle w_rep2 5) [0; 1; 2; 3; 4; 5; 6; 7; 8; 9] = [0; 0; 0; 3; 3; 5; 5; 5; 8; 8] /\
-  map (fun n => segAnswer false w_rep2 8000 (w_cfg 0 0) [w_code 5 1 404] "V300" None ByNumber n (2000 * n + 2037) 200)
+  map (fun n => segAnswer true w_rep2 8000 (w_cfg 0 0) [w_code 5 1 404] "V300" None ByNumber n (2000 * n + 2037) 200)
       [0; 1; 2; 3; 4; 5; 6; 7; 8; 9]
   = map AStatus [200; 404; 200; 200; 404; 200; 404; 200; 200; 404] /\
   (do l <- createLossItvls (bytesOf "u2d1s1"); mapRes (stateAt l) [0; 1; 2; 3; 4; 5; 6; 7])
